@@ -103,6 +103,7 @@ type c15Seq struct {
 	Adapter bool   `json:"middleware_adapter_between_observer_and_handler"`
 	Copy    bool   `json:"body_chunks_via_io_copy"` // body chunks are sent with io.Copy(resp, reader) instead of resp.Write
 	HWF     bool   `json:"plain_handler_via_HandleWithFilter"`
+	Nested  bool   `json:"container_nested_as_plain_handler_of_an_outer_container"` // the observing filter sits on the outer container
 	Panic   bool   `json:"handler_panics_after_its_calls"` // recovery is on; IF the observing filter resumes, what it reads must be true
 }
 
@@ -138,7 +139,15 @@ func runC15(s *c15Seq, limit int) *c15Run {
 	run.fw = fw
 	c := restful.NewContainer()
 	c.EnableContentEncoding(s.Coding != "")
-	c.Filter(func(req *restful.Request, resp *restful.Response, chain *restful.FilterChain) {
+	observerOn := c
+	var outer *restful.Container
+	if s.Nested {
+		// the container that serves the route is itself the plain handler of an outer container (HandleWithFilter): its Response
+		// is created on the outer one's Response, and the outer container's filter is the one that reads status and length
+		outer = restful.NewContainer()
+		observerOn = outer
+	}
+	observerOn.Filter(func(req *restful.Request, resp *restful.Response, chain *restful.FilterChain) {
 		chain.ProcessFilter(req, resp)
 		// "both are what filters after the handler observe"
 		run.statusSeen = resp.StatusCode()
@@ -248,9 +257,14 @@ func runC15(s *c15Seq, limit int) *c15Run {
 		req.Hdr["Accept-Encoding"] = s.Coding
 	}
 	hr := rt.HTTPRequest(&req, nil)
+	if s.Nested {
+		outer.HandleWithFilter("/b/", c)
+	}
 	func() {
 		defer func() { run.panicked = recover() }()
-		if s.HWF {
+		if s.Nested {
+			outer.ServeHTTP(fw, hr)
+		} else if s.HWF {
 			c.ServeHTTP(fw, hr)
 		} else {
 			c.Dispatch(fw, hr)
@@ -312,14 +326,14 @@ func c15Huge(ctx *core.Ctx) {
 
 func c15(ctx *core.Ctx) {
 	quietLogs()
-	ctx.Rule("generated call sequences: first call in {none, WriteHeader, WriteEntity (JSON/XML by Accept, also the 406 dead end), WriteHeaderAndEntity, WriteAsJson/Xml, WriteHeaderAndJson/Xml, WriteJson, WriteError (err / nil), WriteErrorString, WriteServiceError} with payload {small, 500-byte, nil, unmarshalable} and pretty-print on/off (package switch or Response.PrettyPrint), then 0-5 body chunks of {0,1,10,300} bytes sent with Write or io.Copy (the underlying writer is an io.ReaderFrom, as net/http's is); every 9th sequence is a plain handler behind HandleWithFilter (WriteHeader + Write); every 11th sequence ends in a handler panic with recovery on (if the observing filter resumes at all, what it reads is judged); three responses of 2 GiB - 1, 2 GiB + 1 MiB and 4 GiB + 5 bytes streamed in 64 MiB calls; without coding and with gzip/deflate in between. Faults: the underlying writer accepts exactly k bytes then fails every call, k enumerated over EVERY byte position of the fault-free output (call boundaries and inside calls). A trailing container filter reads StatusCode()/ContentLength(). Oracle: StatusCode() == status the underlying writer received (200 if none); without coding ContentLength() == bytes accepted and the call during which the writer first failed returns the injected error; with coding (fault-free) ContentLength() == plaintext length == decoded length. Non-trivial = a run with >= 1 body byte or a non-200 status; distinct by (first call, value, pretty, coding, fault class: none/at-boundary/inside-call, failing call kind).")
+	ctx.Rule("generated call sequences: first call in {none, WriteHeader, WriteEntity (JSON/XML by Accept, also the 406 dead end), WriteHeaderAndEntity, WriteAsJson/Xml, WriteHeaderAndJson/Xml, WriteJson, WriteError (err / nil), WriteErrorString, WriteServiceError} with payload {small, 500-byte, nil, unmarshalable} and pretty-print on/off (package switch or Response.PrettyPrint), then 0-5 body chunks of {0,1,10,300} bytes sent with Write or io.Copy (the underlying writer is an io.ReaderFrom, as net/http's is); every 9th sequence is a plain handler behind HandleWithFilter (WriteHeader + Write); every 13th sequence runs on a container that is itself the plain handler (HandleWithFilter) of an outer container whose filter does the observing; statuses include 1xx, 204, 304, 99 and 1000; every 11th sequence ends in a handler panic with recovery on (if the observing filter resumes at all, what it reads is judged); three responses of 2 GiB - 1, 2 GiB + 1 MiB and 4 GiB + 5 bytes streamed in 64 MiB calls; without coding and with gzip/deflate in between. Faults: the underlying writer accepts exactly k bytes then fails every call, k enumerated over EVERY byte position of the fault-free output (call boundaries and inside calls). A trailing container filter reads StatusCode()/ContentLength(). Oracle: StatusCode() == status the underlying writer received (200 if none); without coding ContentLength() == bytes accepted and the call during which the writer first failed returns the injected error; with coding (fault-free) ContentLength() == plaintext length == decoded length. Non-trivial = a run with >= 1 body byte or a non-200 status; distinct by (first call, value, pretty, coding, fault class: none/at-boundary/inside-call, failing call kind).")
 	ctx.Assume("at most one status-setting call, first in the sequence (as the property states)")
 	defer func() { restful.PrettyPrintResponses = true }()
 	if !ctx.Skip(0) {
 		c15Huge(ctx)
 	}
 	seqs := ctx.N(500, 60000)
-	statuses := []int{200, 201, 202, 400, 404, 500, 99, 1000}
+	statuses := []int{200, 201, 202, 400, 404, 500, 99, 1000, 100, 101, 102, 103, 199, 204, 206, 304, 418, 599}
 	for si := 0; si < seqs; si++ {
 		if ctx.Skip(si) {
 			continue
@@ -331,6 +345,7 @@ func c15(ctx *core.Ctx) {
 			s.Coding = r.Pick([]string{"gzip", "deflate"})
 		}
 		s.Panic = si%11 == 6 && !s.HWF
+		s.Nested = si%13 == 7 && !s.HWF && !s.Panic && s.Coding == ""
 		for i := 0; i < r.Intn(6); i++ {
 			s.Writes = append(s.Writes, []int{0, 1, 10, 300}[r.Intn(4)])
 		}
@@ -425,6 +440,9 @@ func judgeC15(ctx *core.Ctx, si int, s *c15Seq, run *c15Run, k int, cls string) 
 	}
 	if s.HWF {
 		cell = "HandleWithFilter:" + cell
+	}
+	if s.Nested {
+		cell = "nested-container:" + cell
 	}
 	if run.panicked != nil {
 		ctx.Violation(si, "c15:panic:"+cell, fmt.Sprintf("panic: %v", run.panicked), doc)
